@@ -575,6 +575,79 @@ func carriesOnly(v ssa.Value, p ssa.Value) bool {
 	return true
 }
 
+// carriesOnlyConv is carriesOnly through channel-direction and named-type conversions on the way.
+func carriesOnlyConv(v ssa.Value, p ssa.Value) bool {
+	src := sources(v)
+	if len(src) == 0 {
+		return false
+	}
+	for _, s := range src {
+		if stripConvAll(s) != p && s != p {
+			// a converted load of a cell holding p
+			ok := false
+			for _, s2 := range sources(stripConvAll(s)) {
+				if stripConvAll(s2) == p {
+					ok = true
+				} else {
+					return false
+				}
+			}
+			if !ok {
+				return false
+			}
+		}
+	}
+	return true
+}
+
+// sourcesIgnoringFailed is sources(v), except that a result which an inlined helper returns beside a
+// constant false ("no result": `return 0, false`) is not an origin: the caller only uses the value
+// after testing that flag (the flag/use correlation itself is what forwardEx follows).
+func sourcesIgnoringFailed(v ssa.Value) []ssa.Value {
+	var out []ssa.Value
+	for _, sv := range sources(v) {
+		out = append(out, sv)
+	}
+	e, ok := v.(*ssa.Extract)
+	if !ok {
+		// through a single local copy
+		if src := sources(v); len(src) == 1 && src[0] != v {
+			if _, isE := src[0].(*ssa.Extract); isE {
+				return sourcesIgnoringFailed(src[0])
+			}
+		}
+		return out
+	}
+	call, ok := e.Tuple.(*ssa.Call)
+	if !ok {
+		return out
+	}
+	g := iifeCallee(call)
+	if g == nil {
+		return out
+	}
+	out = nil
+	for _, r := range returnsOf(g) {
+		if e.Index >= len(r.Results) {
+			continue
+		}
+		failed := false
+		for i, other := range r.Results {
+			if i == e.Index {
+				continue
+			}
+			if bv, isC := constBool(other); isC && !bv {
+				failed = true
+			}
+		}
+		if failed {
+			continue
+		}
+		out = append(out, sources(r.Results[e.Index])...)
+	}
+	return out
+}
+
 func hasForeign(stores []*ssa.Store, fn *ssa.Function) bool {
 	for _, s := range stores {
 		if s.Parent() != fn {
@@ -1024,31 +1097,59 @@ type cfgEdge struct {
 
 // forwardEx is forward with a set of CFG edges that must not be traversed.
 func forwardEx(starts []startPoint, visit func(in ssa.Instruction) searchAction, blocked map[cfgEdge]bool) (hit ssa.Instruction, reachedExit bool) {
+	// an item may carry the constant boolean results with which an immediately-invoked literal was left:
+	// if the caller branches on such a result right after the call, only the matching edge is followed
+	// (`x, ok := func() (T, bool) { … return zero, false … }(); if !ok { … }`)
 	type item struct {
-		b *ssa.BasicBlock
-		i int
+		b    *ssa.BasicBlock
+		i    int
+		site *ssa.Call
+		key  string
 	}
-	// seen is keyed by (block, first index) so that a continuation after an IIFE call can re-enter the
-	// caller's block at the instruction after the call
-	seen := map[item]bool{}
+	type seenKey struct {
+		b   *ssa.BasicBlock
+		i   int
+		key string
+	}
+	known := map[string]map[int]bool{}
+	// seen is keyed by (block, first index, result context) so that a continuation after an IIFE call can
+	// re-enter the caller's block at the instruction after the call
+	seen := map[seenKey]bool{}
 	var stack []item
 	for _, s := range starts {
-		stack = append(stack, item{s.B, s.I})
+		stack = append(stack, item{b: s.B, i: s.I})
 	}
 	for len(stack) > 0 {
 		it := stack[len(stack)-1]
 		stack = stack[:len(stack)-1]
-		if seen[it] {
+		sk := seenKey{it.b, it.i, it.key}
+		if seen[sk] {
 			continue
 		}
-		seen[it] = true
+		seen[sk] = true
 		stopped := false
 		for k := it.i; k < len(it.b.Instrs); k++ {
 			in := it.b.Instrs[k]
 			// the return of an immediately-invoked literal is not an exit: control continues after its call
-			if _, isRet := in.(*ssa.Return); isRet {
+			if ret, isRet := in.(*ssa.Return); isRet {
 				if site := iifeSiteCached(in.Parent()); site != nil {
-					stack = append(stack, item{site.Block(), instrIndex(site) + 1})
+					kn := map[int]bool{}
+					key := ""
+					for ri, rv := range ret.Results {
+						if bv, isC := constBool(rv); isC && rv.Type().Underlying().String() == "bool" {
+							kn[ri] = bv
+							if bv {
+								key += itoa(ri) + "T"
+							} else {
+								key += itoa(ri) + "F"
+							}
+						}
+					}
+					if key != "" {
+						key = site.Name() + ":" + key
+						known[key] = kn
+					}
+					stack = append(stack, item{b: site.Block(), i: instrIndex(site) + 1, site: site, key: key})
 					stopped = true
 					break
 				}
@@ -1068,7 +1169,7 @@ func forwardEx(starts []startPoint, visit func(in ssa.Instruction) searchAction,
 			// descend into an immediately-invoked function literal: its body runs here
 			if call, ok := in.(*ssa.Call); ok {
 				if g := iifeCallee(call); g != nil {
-					stack = append(stack, item{g.Blocks[0], 0})
+					stack = append(stack, item{b: g.Blocks[0], i: 0})
 					stopped = true // the continuation after the call is scheduled from g's returns
 					break
 				}
@@ -1081,14 +1182,108 @@ func forwardEx(starts []startPoint, visit func(in ssa.Instruction) searchAction,
 		if stopped {
 			continue
 		}
+		// a branch on a result of the literal just left, with that result known
+		only := -1
+		if it.site != nil && it.key != "" && len(it.b.Instrs) > 0 {
+			if ifi, isIf := it.b.Instrs[len(it.b.Instrs)-1].(*ssa.If); isIf {
+				v, neg := ifi.Cond, false
+				for {
+					u, isU := v.(*ssa.UnOp)
+					if !isU || u.Op != token.NOT {
+						break
+					}
+					v, neg = u.X, !neg
+				}
+				idx := -1
+				if e, isE := v.(*ssa.Extract); isE && e.Tuple == ssa.Value(it.site) {
+					idx = e.Index
+				} else if v == ssa.Value(it.site) {
+					idx = 0
+				}
+				if idx >= 0 {
+					if bv, ok := known[it.key][idx]; ok {
+						if bv != neg {
+							only = 0
+						} else {
+							only = 1
+						}
+					}
+				}
+			}
+		}
 		for i, s := range it.b.Succs {
 			if blocked[cfgEdge{it.b, i}] {
 				continue
 			}
-			stack = append(stack, item{s, 0})
+			if only >= 0 && i != only {
+				continue
+			}
+			stack = append(stack, item{b: s, i: 0})
 		}
 	}
 	return
+}
+
+// forwardLocal is forward confined to one function: it neither descends into immediately-invoked
+// literals nor continues past the function's own returns (used where an inlined helper is analysed as a
+// unit of its own).
+func forwardLocal(starts []startPoint, visit func(in ssa.Instruction) searchAction, blocked map[cfgEdge]bool) (hit ssa.Instruction) {
+	type item struct {
+		b *ssa.BasicBlock
+		i int
+	}
+	seen := map[item]bool{}
+	var stack []item
+	for _, s := range starts {
+		stack = append(stack, item{s.B, s.I})
+	}
+	for len(stack) > 0 {
+		it := stack[len(stack)-1]
+		stack = stack[:len(stack)-1]
+		if seen[it] {
+			continue
+		}
+		seen[it] = true
+		stopped := false
+		for k := it.i; k < len(it.b.Instrs); k++ {
+			switch visit(it.b.Instrs[k]) {
+			case found:
+				if hit == nil {
+					hit = it.b.Instrs[k]
+				}
+				stopped = true
+			case stopPath:
+				stopped = true
+			}
+			if stopped {
+				break
+			}
+		}
+		if stopped {
+			continue
+		}
+		for i, sb := range it.b.Succs {
+			if blocked[cfgEdge{it.b, i}] {
+				continue
+			}
+			stack = append(stack, item{sb, 0})
+		}
+	}
+	return
+}
+
+// reachesAvoidingLocal is reachesAvoiding within one function (see forwardLocal).
+func reachesAvoidingLocal(start startPoint, target ssa.Instruction, barrier func(ssa.Instruction) bool, blocked map[cfgEdge]bool) bool {
+	hit := forwardLocal([]startPoint{start}, func(in ssa.Instruction) searchAction {
+		if in == target {
+			return found
+		}
+		if barrier != nil && barrier(in) {
+			return stopPath
+		}
+		return cont
+	}, blocked)
+	return hit != nil
 }
 
 // entryPoint is the start of a function.
@@ -1155,7 +1350,18 @@ func (c Cond) succWhen(want bool) int {
 }
 
 // ifsIn returns all If instructions of fn.
+// ifsIn: the branches of fn and of the immediately-invoked literals nested in it (on a tree without
+// inlined helpers that is just fn's own branches).
 func ifsIn(fn *ssa.Function) []*ssa.If {
+	var out []*ssa.If
+	for _, f := range regionFuncs(fn) {
+		out = append(out, ifsInOnly(f)...)
+	}
+	return out
+}
+
+// ifsInOnly: the branches of fn itself.
+func ifsInOnly(fn *ssa.Function) []*ssa.If {
 	var out []*ssa.If
 	for _, b := range fn.Blocks {
 		if len(b.Instrs) == 0 {
@@ -1781,7 +1987,7 @@ func intEdgeSets(ifi *ssa.If, isV func(ssa.Value) bool, domMin int64) (lo, hi [2
 // satisfying isV (known to be >= domMin) lies within [wantLo, wantHi]?
 func intGuard(fn *ssa.Function, target *ssa.BasicBlock, isV func(ssa.Value) bool, domMin, wantLo, wantHi int64) bool {
 	for _, f := range enclosingChain(target, fn) {
-		for _, ifi := range ifsIn(f) {
+		for _, ifi := range ifsInOnly(f) {
 			lo, hi, okE, ok := intEdgeSets(ifi, isV, domMin)
 			if !ok {
 				continue
